@@ -19,4 +19,15 @@ PROPS = {
     },
 }
 
+PROPS["C17"] = {
+    "proof_files": ["Proofs/Dispatch.v"],
+    "corr": ["C17"],
+    "trusted_base": ["tie to the code: CORRESPONDENCE - Model/Dispatch.v is hand-written; every reachable transition of a real sendFileState (small totals, exhaustively) and random long histories are re-evaluated on the model inside coqc"],
+    "assumptions": ["one event per mutex-protected method of sendFileState; the three locked assignments of applyResumeInfo / its verification goroutine are replayed by the shim (export_verif.go), not by the closure itself"],
+    "level_text": "Theorems over all event lists (any number of workers, chunks, any bitmap, any arrival time of plan and verdict) on an executable model of sendFileState; the model is checked transition-by-transition against the real object.",
+    "level_note": "Trusted: Coq kernel, the harness/shims. Modelled not verified: the worker loop around the state machine (nextTask), goroutine scheduling at finer than method granularity.",
+    "technique": "Coq invariant proof over event lists + exhaustive transition correspondence with the real state machine",
+    "explanation": "state-machine model, invariants by induction over event lists",
+}
+
 NOT_APPLICABLE = {}
